@@ -64,6 +64,16 @@ JudgeConc(e) ==
      Tag(store' = exp.r.store, "Conc.store") \o Tag(hidx' = exp.r.hidx, "Conc.hidx") \o
      Tag(count' = exp.r.count, "Conc.count") \o Tag(last' = exp.r.last, "Conc.last")
 
+(* an add overlapping a fork switch of at least two removals: the stores are what some position
+   of the add among the fork's adds gives *)
+JudgeConcFork(e) ==
+  LET a == [g |-> e.a.g, pre |-> e.a.pre] IN
+  IF e.mode = "park"
+    THEN Tag(Rec4(store', hidx', count', last') = ConcForkAt(store, hidx, count, last, e.g, e.ids, e.pres, a, e.j),
+             "ConcFork.outcome-not-in-model")
+    ELSE Tag(Rec4(store', hidx', count', last') \in ConcForkOutcomes(store, hidx, count, last, e.g, e.ids, e.pres, a),
+             "ConcFork.outcome-not-in-model")
+
 JudgeRestart(e) ==
   Tag(<<store', hidx', count', last'>> = <<store, hidx, count, last>>, "Restart.changed")
 
@@ -108,6 +118,7 @@ Judge(e) ==
      [] e.event = "Readers" -> (* lookups from several goroutines at once, no writer *)
                                Tag(e.mismatches = 0, "Inv.ConcurrentLookupsAgree") \o
                                Tag(<<store', hidx', count', last'>> = <<store, hidx, count, last>>, "Readers.changed")
+     [] e.event = "ConcFork" -> JudgeConcFork(e)
      [] e.event = "Crash"   -> JudgeCrash(e)
      [] e.event = "RestartFailed" -> <<"Inv.NodeCannotRestart">>   \* initGroupChain died over these stores
      [] e.event = "Reset"   -> <<>>
